@@ -28,6 +28,7 @@ type Scenario struct {
 	PutPanicAt    int   `json:"putpanicat"`
 	ReplayPanicAt int   `json:"replaypanicat"`
 	Prefill       int   `json:"prefill,omitempty"` // publishes made sequentially before anything else starts
+	WarmSubs      int   `json:"warmsubs,omitempty"` // the first WarmSubs subscribers are started and run to quiescence (registered) before the schedule begins
 	Picks         []int `json:"picks"`
 }
 
@@ -113,6 +114,9 @@ func genScenario(p profile) func(*rapid.T) Scenario {
 			}
 			sc.Subs = append(sc.Subs, s)
 		}
+		if ns > 0 && stats.Pct(t, "warm") < 65 {
+			sc.WarmSubs = 1 + stats.Pick(t, ns, "warmsubs")
+		}
 		np := 1 + stats.Pick(t, 3, "npubs")
 		for i := 0; i < np; i++ {
 			nm := 1 + stats.Pick(t, 4, "nmsgs")
@@ -150,7 +154,12 @@ func genScenario(p profile) func(*rapid.T) Scenario {
 		} else if stats.Pct(t, "hasprefill") < 25 {
 			sc.Prefill = stats.Pick(t, 8, "prefill")
 		}
-		sc.Picks = rapid.SliceOfN(rapid.IntRange(0, 11), 0, 90).Draw(t, "picks")
+		// The schedule: uniform picks (rapid's own integer/slice generators are biased towards
+		// small values and short slices, which would make almost every run sequential).
+		np2 := 25 + stats.Pick(t, 100, "npicks")
+		for i := 0; i < np2; i++ {
+			sc.Picks = append(sc.Picks, stats.Bits(t, 6, "pick"))
+		}
 		return sc
 	}
 }
